@@ -111,7 +111,8 @@ def plan_token(p):
 
 
 def err_class(p):
-    code, _, msg = parse_err(p)
+    # before the capabilities are negotiated the server uses the pre-4.1 form (no SQL state marker)
+    code, _, msg = parse_err(p, proto41=(p[3:4] == b"#"))
     if code == 3169:
         return "qkilled" if msg.startswith(b"Query") else "skilled"
     return {1043: "handshake", 1045: "denied", 3162: "unknown", 1105: "generic"}.get(code, "mysql")
@@ -237,7 +238,7 @@ class Driven:
         cid = p.greeting["cid"] if p.greeting else None
         return "%s %s close=%d init=%d reg=%d tclosed=%d exc=%s" % (
             ",".join(toks) or "-", "closed" if closed else "open", self.sess.close_calls, 1 if self.sess.init_completed else 0,
-            1 if cid in self.ctl._connections else 0, 1 if p.t.closed else 0, exc_class(p.task))
+            1 if cid in self.ctl._connections else 0, 1 if (p.t.closed and closed) else 0, exc_class(p.task))
 
     def take_tokens(self):
         new = self.peer.take()
@@ -266,7 +267,7 @@ class Driven:
         elif mode == "unknown":
             payload = hs_response("ghost", caps=self.caps)
         else:
-            payload = struct.pack("<IIB", int(self.caps), 1 << 24, 255) + bytes(23) + b"u\0" + b"\x05ab"  # truncated auth data then EOF of packet
+            payload = struct.pack("<IH", int(self.caps), 7)  # truncated inside the fixed part: the parser raises
         await self.peer.send(pkt(1, payload))
         toks = self.take_tokens()
         self.peer.caps = int(self.caps) & self.peer.greeting["caps"]
